@@ -153,4 +153,13 @@ def main():
 
 
 if __name__ == "__main__":
-    sys.exit(main())
+    try:
+        rc = main()
+    except SystemExit:
+        raise
+    except Exception as exc:  # fail closed: an internal error is never a verdict
+        import traceback
+        traceback.print_exc()
+        print("INFRA: internal error in the checker: %r" % (exc,))
+        rc = 2
+    sys.exit(rc)
